@@ -730,6 +730,9 @@ func TestC12(t *testing.T) {
 		res.Classes = append(res.Classes, "long-"+c.Kind)
 		return
 	}, HangLimit: 120 * time.Second}, r.N(300, 3000))
+	core.DFS(r, core.Check[longParserCase]{Name: "long-lived-parser", Gen: func(s core.Source) longParserCase {
+		return longParserCase{Docs: r.N(12000, 60000), Notation: s.Choose(2, "notation") == 1}
+	}, Exec: execLongParser("C12"), NoJournal: true, HangLimit: 600 * time.Second}, 0)
 	depths := []int{1, 2, 8, 9, 16, 17, 18, 50, 100, 300}
 	if r.Thorough() {
 		depths = append(depths, 1000, 2000)
